@@ -510,12 +510,14 @@ def explore_predict_variants(case):
             for first in (True, False):
                 pat = ca.Sparsity.diag(n)
                 sp = ca.DM(pat)
-                Pm = ca.DM.zeros(n, n)
+                Pm = ca.DM(n, n)  # all structural zeros (DM.zeros would be a dense pattern)
                 idx = 0 if first else n - 1
                 for i in range(n):
                     Pm[i, i] = 1
                     Pm[i, idx] = 1
                     Pm[idx, i] = 1
+                if Pm.sparsity().nnz() != 3 * n - 2:
+                    raise core.HarnessError("arrow-head pattern is not sparse")
                 Ps = ca.SX.sym("P", Pm.sparsity())
                 try:
                     Afac, D = (u.ldl_symmetric_decomposition(Ps) if kind == "ldl" else u.udu_symmetric_decomposition(Ps))
